@@ -5,6 +5,7 @@ import (
 	"fmt"
 	"net/http"
 	"strings"
+	"unicode/utf8"
 
 	"verif/sim"
 	"verif/world"
@@ -26,6 +27,8 @@ func pidClass(pid string) string {
 		return "pid-with-nul"
 	case len(pid) > 100:
 		return "long-pid"
+	case !utf8.ValidString(pid):
+		return "invalid-utf8-pid"
 	}
 	for _, c := range pid {
 		if c > 127 {
@@ -223,30 +226,45 @@ func (m c07mon) Post(s *sim.Sim, st *sim.Step) []*sim.Violation { return nil }
 func (m c07mon) authLevel(s *sim.Sim, st *sim.Step) []*sim.Violation {
 	rec := st.Rec
 	b := st.Act.B
-	if st.Act.Kind == "dropsid" {
-		delete(m.level, b)
-		return nil
-	}
+	authLevels(m.level).observe(s, st)
 	if rec.Kind != "http" || !s.RememberActive() {
 		return nil
 	}
 	uid := rec.SessOut["uid"]
+	if m.level[b] == "half" && uid != "" && rec.SessOut["halfauth"] == "" && flushed(rec) && rec.FaultsFired == 0 {
+		return []*sim.Violation{vio("C07", "half-auth-mark-lost-without-full-login|"+st.Act.Kind, "the session of b%d names %q only on the strength of a remember cookie, yet after %s %s its half-auth mark is gone although no login of that account completed in it", b, uid, rec.Method, rec.Target)}
+	}
+	return nil
+}
+
+// authLevels is the ledger of HOW each browser's session came to name its user: "full" when a login
+// of that account completed in it, "half" when only a remember cookie vouches for it.
+type authLevels map[int]string
+
+// observe updates the ledger with an executed request (ledger state before Learn).
+func (l authLevels) observe(s *sim.Sim, st *sim.Step) {
+	rec := st.Rec
+	b := st.Act.B
+	if st.Act.Kind == "dropsid" {
+		delete(l, b)
+		return
+	}
+	if rec.Kind != "http" || !s.RememberActive() {
+		return
+	}
+	uid := rec.SessOut["uid"]
 	if uid == "" {
-		delete(m.level, b)
-		return nil
+		delete(l, b)
+		return
 	}
 	if sim.SessPutAny(rec, "uid", uid) {
 		switch {
 		case justifyFlow(s, st, uid) != "":
-			m.level[b] = "full"
+			l[b] = "full"
 		case rememberJustifies(s, st, uid):
-			m.level[b] = "half"
+			l[b] = "half"
 		}
 	}
-	if m.level[b] == "half" && rec.SessOut["halfauth"] == "" && flushed(rec) && rec.FaultsFired == 0 {
-		return []*sim.Violation{vio("C07", "half-auth-mark-lost-without-full-login|"+st.Act.Kind, "the session of b%d names %q only on the strength of a remember cookie, yet after %s %s its half-auth mark is gone although no login of that account completed in it", b, uid, rec.Method, rec.Target)}
-	}
-	return nil
 }
 
 func (m c07mon) Sig(s *sim.Sim, st *sim.Step) string {
@@ -339,7 +357,8 @@ func c07Extra(s *sim.Sim) *sim.Action {
 	return a
 }
 
-var c07PIDs = []string{"semi;colon@x.test", "two;;semis@x.test", "nul\x00byte@x.test", "ünï©ode@x.test", strings.Repeat("long", 80) + "@x.test", "trailing;@x.test"}
+var c07PIDs = []string{"semi;colon@x.test", "two;;semis@x.test", "nul\x00byte@x.test", "ünï©ode@x.test", strings.Repeat("long", 80) + "@x.test", "trailing;@x.test",
+	"J\xfcrgen@x.test", "bin\xff\xfe\x80id@x.test"} // Latin-1 and binary identifiers: not valid UTF-8
 
 var c07Profile = &sim.Profile{
 	W: map[string]int{
@@ -358,7 +377,7 @@ var c07Profile = &sim.Profile{
 func init() {
 	register(&Check{
 		ID: "C07", Level: "exploration",
-		Rule:  "histories of issue/use/replay/theft/logout/password-reset over accounts whose identifiers come from a hostile corpus (';', ';;', NUL, non-ASCII, 320 bytes, trailing ';') and over OAuth2 accounts (identifiers the library builds itself); cookie values presented: live, spent, revoked, stolen onto another browser, net/http-invisible, not base64, no separator, separator first/last, right PID + zero nonce, another account's nonce under this PID, truncated/extended live cookies, 8 KB. Ledger: every rm value seen in a Set-Cookie with the account the server's token table attributes it to, spent/revoked marks. Oracle per request: live cookie from a uid-less browser => put(uid=that account), halfauth, a fresh value, same number of token rows, and no admission to a full-auth route; any other value => no session and the cookie deleted (when the response wrote client state); logged-in browsers are left alone; no rm value is issued unless rm=true was submitted (or rotation); full logins clear halfauth. distinct_nontrivial = distinct (action, cookie state, PID class, session state, uid outcome, #values issued, deleted) signatures.",
+		Rule:  "histories of issue/use/replay/theft/logout/password-reset over accounts whose identifiers come from a hostile corpus (';', ';;', NUL, non-ASCII, invalid UTF-8 (Latin-1, binary), 320 bytes, trailing ';') and over OAuth2 accounts (identifiers the library builds itself); cookie values presented: live, spent, revoked, stolen onto another browser, net/http-invisible, not base64, no separator, separator first/last, right PID + zero nonce, another account's nonce under this PID, truncated/extended live cookies, 8 KB. Ledger: every rm value seen in a Set-Cookie with the account the server's token table attributes it to, spent/revoked marks. Oracle per request: live cookie from a uid-less browser => put(uid=that account), halfauth, a fresh value, same number of token rows, and no admission to a full-auth route; any other value => no session and the cookie deleted (when the response wrote client state); logged-in browsers are left alone; no rm value is issued unless rm=true was submitted (or rotation); full logins clear halfauth. distinct_nontrivial = distinct (action, cookie state, PID class, session state, uid outcome, #values issued, deleted) signatures.",
 		Units: func(t string) int { return tierN(t, 800, 40000) },
 		Run: func(c *RunCtx, unit int) {
 			r := Rng(c.Seed, "C07", unit)
